@@ -714,3 +714,155 @@ Example lock_no_stuck_nonvacuous :
   exists s, run true (init 2) [AStep 0; AStep 0; AStep 1; AStep 1; AStep 0; ARemove 0 0] = Some s /\
             nth_error (thr s) 1 = Some (L2 0).
 Proof. split; [vm_compute; reflexivity|]. eexists. split; [vm_compute; reflexivity|reflexivity]. Qed.
+
+(* ---- C28: no residue with pruning ----------------------------------------------------------- *)
+Definition InvP (s : st) : Prop :=
+  forall p q, cur s = Some p -> nth_error (heap s) p = Some q -> ents q = [] ->
+  exists t, nth_error (thr s) t = Some (L1 p).
+
+Lemma invp_init n : InvP (init n).
+Proof. intros p q E. discriminate. Qed.
+
+Lemma do_remove_invp s p id s' f : Inv s -> InvP s -> do_remove true s p id = Some (s', f) -> InvP s'.
+Proof.
+  intros I P E. pose proof E as E'. unfold do_remove in E.
+  destruct (nth_error (heap s) p) as [q|] eqn:Eq; [|discriminate].
+  unfold q_remove in E. destruct (has_tok id (ents q)) eqn:Eh.
+  - assert (Hne : ents q <> []). { intros Z. rewrite Z in Eh. discriminate. }
+    pose proof (nonempty_is_cur s p q I Eq Hne) as Hc.
+    inversion E; subst s' f; clear E. intros p0 q0 C0 E0 Z0. simpl in *.
+    rewrite Hc in C0. simpl in C0. rewrite Nat.eqb_refl, andb_true_r in C0.
+    match type of C0 with (if ?b then _ else _) = _ => destruct b eqn:Eb end; [discriminate|].
+    inversion C0; subst p0. rewrite (upd_nth_same _ _ _ _ Eq) in E0. inversion E0; subst q0. simpl in *.
+    rewrite Z0 in Eb. discriminate.
+  - inversion E; subst s' f; clear E. intros p0 q0 C0 E0 Z0. simpl in *.
+    rewrite (upd_id _ _ _ Eq) in E0. eapply P; eauto.
+Qed.
+
+Lemma invp_step s a s' : Inv s -> InvP s -> step true s a = Some s' -> InvP s'.
+Proof.
+  intros I P E. destruct a as [t|t|p id]; simpl in E.
+  - destruct (nth_error (thr s) t) as [c|] eqn:Et; [|discriminate].
+    destruct c as [|p|p|p|]; try discriminate.
+    + destruct (cur s) as [p|] eqn:Ec; inversion E; subst; clear E; intros p0 q0 C0 E0 Z0; simpl in *.
+      * rewrite Ec in C0. inversion C0; subst p0. exists t. eapply upd_nth_same; eauto.
+      * inversion C0; subst p0. exists t. eapply upd_nth_same; eauto.
+    + destruct (nth_error (heap s) p) as [q|] eqn:Eq; [|discriminate].
+      destruct (retired q) eqn:Er; inversion E; subst; clear E; intros p0 q0 C0 E0 Z0; simpl in *.
+      * destruct (P p0 q0 C0 E0 Z0) as [t0 T0]. exists t0.
+        rewrite upd_nth_other; [assumption|]. intros <-. rewrite Et in T0. inversion T0; subst p0.
+        destruct (i_cur s I p C0) as [q2 [E2 R2]]. congruence.
+      * pose proof (unretired_is_cur s p q I Eq Er) as Hc. rewrite Hc in C0. inversion C0; subst p0.
+        rewrite (upd_nth_same _ _ _ _ Eq) in E0. inversion E0; subst q0. simpl in Z0.
+        destruct (ents q); discriminate.
+    + destruct (nth_error (heap s) p) as [q|] eqn:Eq; [|discriminate].
+      destruct (find_entry t (ents q)) as [e|]; [|discriminate].
+      destruct (e_ready e); [|discriminate]. inversion E; subst; clear E.
+      intros p0 q0 C0 E0 Z0; simpl in *. destruct (P p0 q0 C0 E0 Z0) as [t0 T0]. exists t0.
+      rewrite upd_nth_other; [assumption|]. intros <-. congruence.
+  - destruct (nth_error (thr s) t) as [c|] eqn:Et; [|discriminate].
+    destruct c as [|p|p|p|]; try discriminate.
+    destruct (do_remove true s p t) as [[s1 f]|] eqn:Ed; [|discriminate].
+    inversion E; subst; clear E. pose proof (do_remove_invp _ _ _ _ _ I P Ed) as P1.
+    destruct (inv_do_remove _ _ _ _ _ _ I Ed) as [_ T1].
+    intros p0 q0 C0 E0 Z0; simpl in *. destruct (P1 p0 q0 C0 E0 Z0) as [t0 T0]. exists t0.
+    rewrite upd_nth_other; [assumption|]. intros <-. rewrite T1 in T0. congruence.
+  - destruct (do_remove true s p id) as [[s1 f]|] eqn:Ed; [|discriminate].
+    inversion E; subst. eapply do_remove_invp; eauto.
+Qed.
+
+Lemma invp_run : forall acts s s', Inv s -> InvP s -> run true s acts = Some s' -> InvP s'.
+Proof.
+  induction acts as [|a r IH]; intros s s' I P E; simpl in E.
+  - inversion E; subst; assumption.
+  - destruct (step true s a) as [s1|] eqn:Es; [|discriminate].
+    eapply IH; [eapply inv_step; eauto|eapply invp_step; eauto|eassumption].
+Qed.
+
+(* with pruning: the key has a map entry only while somebody is queued on it or is between
+   getQueue and enqueue *)
+Lemma no_residue_inv s : Inv s -> InvP s -> has_entry s = true -> in_use s = true.
+Proof.
+  intros I P Hh. unfold has_entry in Hh. destruct (cur s) as [p|] eqn:Ec; [|discriminate].
+  destruct (i_cur s I p Ec) as [q [Eq _]]. unfold in_use. apply orb_true_iff.
+  destruct (ents q) as [|e tl] eqn:Q.
+  - right. destruct (P p q Ec Eq Q) as [t T]. apply existsb_exists. exists (L1 p).
+    split; [eapply nth_error_In; eauto|reflexivity].
+  - left. apply existsb_exists. exists q. split; [eapply nth_error_In; eauto|]. rewrite Q. reflexivity.
+Qed.
+
+Theorem lock_no_residue_pruned : forall n acts s, run true (init n) acts = Some s ->
+  has_entry s = true -> in_use s = true.
+Proof.
+  intros n acts s R. apply no_residue_inv; [eapply reach_inv; eauto|].
+  eapply invp_run; eauto using inv_init, invp_init.
+Qed.
+
+Example lock_no_residue_nonvacuous :
+  exists s, run true (init 1) [AStep 0; AStep 0; AStep 0; ARemove 0 0] = Some s /\
+            has_entry s = false /\ nth_error (thr s) 0 = Some (H 0).
+Proof. eexists. split; [vm_compute; reflexivity|]. split; reflexivity. Qed.
+
+(* the code of the pinned commit keeps the entry: Lock k; Unlock k *)
+Theorem lock_no_residue_refuted_unpruned :
+  exists s, run false (init 1) [AStep 0; AStep 0; AStep 0; ARemove 0 0] = Some s /\
+            has_entry s = true /\ in_use s = false.
+Proof. eexists. split; [vm_compute; reflexivity|]. split; reflexivity. Qed.
+
+(* ... and never drops it again: the map only grows *)
+Theorem lock_growth_unpruned : forall s a s', step false s a = Some s' ->
+  has_entry s = true -> has_entry s' = true.
+Proof.
+  intros s a s' E Hh. unfold has_entry in *. destruct (cur s) as [c|] eqn:Ec; [|discriminate].
+  assert (R : forall p id s1 f, do_remove false s p id = Some (s1, f) -> cur s1 = Some c).
+  { intros p id s1 f Ed. unfold do_remove in Ed. destruct (nth_error (heap s) p); [|discriminate].
+    destruct (q_remove false id q) as [q' fd]. inversion Ed; subst. simpl.
+    rewrite andb_false_r. simpl. assumption. }
+  destruct a as [t|t|p id]; simpl in E.
+  - destruct (nth_error (thr s) t) as [[|p|p|p|]|]; try discriminate.
+    + rewrite Ec in E. inversion E; subst. simpl. rewrite Ec. reflexivity.
+    + destruct (nth_error (heap s) p) as [q|]; [|discriminate].
+      destruct (retired q); inversion E; subst; simpl; rewrite Ec; reflexivity.
+    + destruct (nth_error (heap s) p) as [q|]; [|discriminate].
+      destruct (find_entry t (ents q)) as [e|]; [|discriminate].
+      destruct (e_ready e); inversion E; subst; simpl; rewrite Ec; reflexivity.
+  - destruct (nth_error (thr s) t) as [[|p|p|p|]|]; try discriminate.
+    destruct (do_remove false s p t) as [[s1 f]|] eqn:Ed; [|discriminate].
+    inversion E; subst. simpl. rewrite (R _ _ _ _ Ed). reflexivity.
+  - destruct (do_remove false s p id) as [[s1 f]|] eqn:Ed; [|discriminate].
+    inversion E; subst. rewrite (R _ _ _ _ Ed). reflexivity.
+Qed.
+
+(* ---- the whole lock: the map size is bounded by the number of keys in use ------------------ *)
+Definition KInv (s : st) : Prop := Inv s /\ InvP s.
+
+Lemma upd_Forall {A} (P : A -> Prop) : forall l i y, Forall P l -> P y -> Forall P (upd i y l).
+Proof.
+  induction l as [|z t IH]; intros [|i] y F Py; simpl; auto; inversion F; subst; constructor; auto.
+Qed.
+
+Lemma gstep_kinv g k a g' : Forall KInv g -> gstep true g k a = Some g' -> Forall KInv g'.
+Proof.
+  intros F E. unfold gstep in E. destruct (nth_error g k) as [s|] eqn:Ek; [|discriminate].
+  destruct (step true s a) as [s'|] eqn:Es; [|discriminate]. inversion E; subst.
+  apply upd_Forall; [assumption|]. rewrite Forall_forall in F.
+  destruct (F s (nth_error_In _ _ Ek)) as [I P]. split; [eapply inv_step; eauto|eapply invp_step; eauto].
+Qed.
+
+Theorem lock_map_size_bounded : forall ns acts g,
+  grun true (map init ns) acts = Some g -> map_size g <= keys_in_use g.
+Proof.
+  intros ns acts g R.
+  assert (F : Forall KInv g).
+  { assert (F0 : Forall KInv (map init ns)).
+    { apply Forall_forall. intros s Hin. apply in_map_iff in Hin. destruct Hin as [n [<- _]].
+      split; [apply inv_init|apply invp_init]. }
+    revert R F0. generalize (map init ns). induction acts as [|[k a] r IH]; intros g0 R F0; simpl in R.
+    - inversion R; subst; assumption.
+    - destruct (gstep true g0 k a) as [g1|] eqn:Eg; [|discriminate].
+      eapply IH; [eassumption|eapply gstep_kinv; eauto]. }
+  unfold map_size, keys_in_use. clear R. induction F as [|s l [I P] Fl IH]; simpl; [lia|].
+  destruct (has_entry s) eqn:Hh.
+  - rewrite (no_residue_inv s I P Hh). simpl. lia.
+  - destruct (in_use s); simpl; lia.
+Qed.
